@@ -357,8 +357,9 @@ class ipv6 (packet_base):
           self.msg('(ipv6) warning, packet data incomplete')
           return
         try:
-          offset,o = c.unpack_new(raw, offset, max_length = length)
-          length -= len(o)
+          new_offset,o = c.unpack_new(raw, offset, max_length = length)
+          length -= new_offset - offset # (len(o) is the length *field*)
+          offset = new_offset
         except TruncatedException:
           self.msg('(ipv6) warning, packet data truncated')
           return
